@@ -311,6 +311,14 @@ def ref_leaf_datum(pre, name, args, kwargs, datum):
     return r
 
 
+def is_null_term(term):
+    if term[0] == "null":
+        return True
+    if term[0] in ("and", "or", "xor"):
+        return is_null_term(term[1]) and is_null_term(term[2])
+    return False
+
+
 def ref_tree(term, doc):
     """One bool per item of doc, or None when the tree refuses this container kind
     (key-kind leaf on a list, index-kind leaf on a mapping)."""
@@ -329,6 +337,12 @@ def ref_tree(term, doc):
             datum = v if kind == "value" else k
             out.append(ref_leaf_datum(pre, name, args, kwargs, datum))
         return out
+    # null is the identity of every operator ("combining with the null condition on either
+    # side gives the other operand's behaviour"), not an all-True Boolean operand
+    if is_null_term(term[1]):
+        return ref_tree(term[2], doc)
+    if is_null_term(term[2]):
+        return ref_tree(term[1], doc)
     a = ref_tree(term[1], doc)
     b = ref_tree(term[2], doc)
     if a is None or b is None:
